@@ -7,7 +7,7 @@ import ast
 
 from sa import fd
 from sa.model import AnalysisError, walk_no_nested, norm, stmt_of
-from sa.util import self_calls, fact_atom, cmp_parts, const_value, bound_arg
+from sa.util import module_resolver, self_calls, fact_atom, cmp_parts, const_value, bound_arg
 from sa.consteval import TOP
 from .roles import ClientRoles
 from .c10 import sender_sites
@@ -221,7 +221,7 @@ def run(ctx):
                 return [(fd.Tup([fd.Const("OK"), fd.Unknown("d")]), ("native", "OK")), (fd.Tup([fd.Const("NO"), fd.Unknown("d")]), ("native", "NO"))]
         return None
 
-    it = fd.Interp(f.node, R.cls.name, oracle)
+    it = fd.Interp(f.node, R.cls.name, oracle, resolve=module_resolver(ctx.program, R.module))
     try:
         paths = it.run({})
     except fd.TooManyPaths:
